@@ -77,7 +77,10 @@ class Explorer:
             self.ck.nontrivial(key)
         if strategy == "minimize-collapse-brace" and not replay and not extra:
             extra = atom + " "
-        if model and run.exc != "CapHit":
+        if run.exc == "Hang":
+            self.ck.violation(f"{strategy} did not finish within the watchdog budget (spinning without running a "
+                              f"test, or hung) after {run.tests} tests", replay_doc(ctx, run))
+        if model and run.exc not in ("CapHit", "Hang"):
             used = "".join(a for _, _, a in run.seen)
             self.lines.append(model_line(strategy, cfg, ctx["tc"], file0, used, clock, extra=extra,
                                          steps=run.steps if replay else None))
@@ -230,7 +233,7 @@ def oracle_c09(ck, ctx, run):
     if ctx["strategy"] in ("minimize", "minimize-around", "minimize-balanced",
                            "minimize-collapse-brace") and not ctx["cfg"].get("move"):
         b = c09_bound(n)
-        if run.tests > b or run.exc not in (None, "test"):
+        if run.tests > b or run.exc not in (None, "test", "Hang"):
             ck.violation(f"{ctx['strategy']} ran {run.tests} tests on n={n} atoms (bound {b}), exc={run.exc}",
                          replay_doc(ctx, run, bound=b))
 
